@@ -402,6 +402,11 @@ def run(ck, F):
     # ---- R5
     rule_carrier(ck, X)
     rule_member_order(ck, F)
+    # the prefix a member carries is the one of the namespace that was current when it was read: right only if a definition read out
+    # of its turn is read under its own schema's namespace, and what follows it under the previous one again (C10.R6, kept as R3)
+    from rules import c04 as C04
+    from rules import c10 as C10
+    C10.rule_component_read_out_of_turn(C04._Sub(ck, "R3", lambda key: key.startswith("out-of-turn") or "floor" in key), F, rule="R6")
 
 
 def _gname(g):
